@@ -21,17 +21,17 @@ pub const TARGETS: &[&str] = &["absent", "same", "different_with_children", "no_
 
 #[derive(Clone, Copy, Debug, PartialEq, Eq)]
 pub enum Rel {
-    EqPrim, EqObj, EqOut, EqArr, ObjIn, ObjOut, Super1, Super2, SuperItf,
-    Unrelated, Reversed, DelegateObject, PrimObj, ObjPrim, PrimPrim, ArrObject, ArrArr, ObjArr,
+    EqPrim, EqObj, EqOut, EqArr, ObjIn, ObjOut, Super1, Super2, SuperItf, SuperRich,
+    Unrelated, UnrelRich, Reversed, DelegateObject, PrimObj, ObjPrim, PrimPrim, ArrObject, ArrArr, ObjArr,
     BridgeOut, DelegateOut, AncestorOut,
     VoidVoid, VoidNon, NonVoid,
 }
 use Rel::*;
 const YES_EQ: &[Rel] = &[EqPrim, EqObj, EqOut, EqArr];
-const YES_WIDE_IN: &[Rel] = &[Super1, Super2, SuperItf];
+const YES_WIDE_IN: &[Rel] = &[Super1, Super2, SuperItf, SuperRich, SuperRich, SuperRich];
 const YES_OBJ: &[Rel] = &[ObjIn, ObjOut];
 const NO_PRIM: &[Rel] = &[PrimObj, ObjPrim, PrimPrim];
-const NO_UNREL: &[Rel] = &[Unrelated, Reversed, DelegateObject];
+const NO_UNREL: &[Rel] = &[Unrelated, Reversed, DelegateObject, UnrelRich, UnrelRich];
 const NO_ARR: &[Rel] = &[ArrObject, ArrArr, ObjArr];
 
 #[derive(Clone, Copy, Debug, PartialEq, Eq)]
